@@ -491,7 +491,8 @@ def write_expdata(path, numel, pairs, timetraces, time, locs, fortran):
 
 
 def check_brain(ctx):
-    from arim.io import brain
+    import arim
+    from arim.io import brain, native
 
     rng = ctx.rng
     root = CACHE / f"c20b-{ctx.seed}-{ctx.tier}"
@@ -536,6 +537,37 @@ def check_brain(ctx):
               and abs(fr.time.start - t0) == 0 and np.array_equal(fr.probe.locations.coords, locs))
         if not ok:
             ctx.violate("load_expdata altered samples / time axis / element positions / indices", cj, {"kind": "brain_roundtrip"})
+        # the same file through `frame_from_conf` (the door the scripts use): samples / indices unchanged, the time axis shifted by
+        # the configured instrument delay, and — independently of each other — the probe and the examination object taken from the
+        # configuration when asked, from the file otherwise
+        if k % 3 == 0 and numel >= 2:
+            cprobe = {"frequency": 4e6, "numx": numel + 1, "pitch_x": 0.7e-3, "numy": 1, "pitch_y": float("nan"), "dimensions": [0.5e-3, 5e-3, float("nan")]}
+            vel_c = 6400.0 + 10.0 * k
+            conf_f = arim.config.Config({"frame": {"datafile": str(f), "instrument_delay": 2e-7}, "probe": cprobe, "probe_location": {"ref_element": "mean"},
+                                         "block_material": {"longitudinal_vel": vel_c, "transverse_vel": 3100.0, "density": 2700.0, "state_of_matter": "solid"},
+                                         "backwall": {"xmin": -0.01, "xmax": 0.02, "z": 0.04, "numpoints": 3}})
+            for up in (True, False):
+                for ue in (True, False):
+                    cjf = {"op": "frame_from_conf", "use_probe_from_conf": up, "use_examination_object_from_conf": ue, "numel_in_file": numel}
+                    ctx.case(("ffc", k, up, ue), True)
+                    ctx.count("frame_from_conf")
+                    try:
+                        ff = native.frame_from_conf(conf_f, use_probe_from_conf=up, use_examination_object_from_conf=ue)
+                    except Exception as e:
+                        ctx.violate(f"frame_from_conf raised {type(e).__name__}: {str(e)[:80]}", cjf, {"kind": "frame_from_conf"})
+                        continue
+                    okf = (np.array_equal(ff.timetraces, tt) and list(ff.tx) == [a for a, _ in allp] and list(ff.rx) == [b for _, b in allp]
+                           and abs(ff.time.start - (t0 - 2e-7)) <= 1e-9 * dt and ff.time.step == fr.time.step)
+                    okp = (ff.probe.numelements == numel + 1 and abs(ff.probe.frequency - 4e6) == 0) if up else np.array_equal(ff.probe.locations.coords, locs)
+                    blk = getattr(ff.examination_object, "material", None)
+                    is_conf_exam = isinstance(ff.examination_object, arim.BlockInContact) and blk is not None and blk.longitudinal_vel == vel_c \
+                        and ff.examination_object.backwall is not None
+                    oke = is_conf_exam if ue else not is_conf_exam
+                    if not (okf and okp and oke):
+                        ctx.violate(f"frame_from_conf(use_probe_from_conf={up}, use_examination_object_from_conf={ue}): "
+                                    + ("samples / indices / time axis differ from the file; " if not okf else "")
+                                    + ("the probe is not the one asked for; " if not okp else "")
+                                    + ("the examination object is not the one asked for" if not oke else ""), cjf, {"kind": "frame_from_conf"})
     shutil.rmtree(root, ignore_errors=True)
 
 
